@@ -4,7 +4,7 @@ from . import gen, interp, runner
 from .core import Fail, h64
 from .lang import program_src
 
-PROFILES = ["scalars", "aggregates", "sums", "control", "functions", "pointers", "all", "all"]
+PROFILES = ["scalars", "aggregates", "sums", "control", "functions", "pointers", "all", "equality"]
 
 
 def cfg_for(profile, avoid=frozenset()):
@@ -37,8 +37,120 @@ AVOID_BY_KEY = {
 }
 
 
+def count_lits(e):
+    k = type(e).__name__
+    if k == "Lit":
+        return 1
+    if k == "ArrLit":
+        return sum(count_lits(x) for x in e.elems)
+    if k == "StructLit":
+        return sum(count_lits(x) for _, x in e.fields)
+    if k in ("Coerce", "Cast"):
+        return count_lits(e.e)
+    if k == "VariantLit":
+        return 0 if e.payload is None else count_lits(e.payload)
+    return 0
+
+
+def replace_lit(e, n):
+    """copy of the literal tree `e` with its n-th scalar leaf changed; returns (copy, leaves consumed)"""
+    from .lang import Lit, ArrLit, StructLit, Coerce, Cast, VariantLit, strip_distinct, Bool, Char
+    k = type(e).__name__
+    if k == "Lit":
+        if n != 0:
+            return e, 1
+        t = strip_distinct(e.ty)
+        if isinstance(t, Bool):
+            return Lit(e.ty, not e.v), 1
+        if isinstance(t, Char):
+            return Lit(e.ty, (e.v + 1) % 256), 1
+        return Lit(e.ty, e.v - 1 if e.v >= t.max else e.v + 1), 1
+    if k == "ArrLit":
+        out, used = [], 0
+        for x in e.elems:
+            y, u = replace_lit(x, n - used)
+            out.append(y)
+            used += u
+        return ArrLit(e.ty, out), used
+    if k == "StructLit":
+        out, used = [], 0
+        for name, x in e.fields:
+            y, u = replace_lit(x, n - used)
+            out.append((name, y))
+            used += u
+        return StructLit(e.ty, out), used
+    if k == "Coerce":
+        y, u = replace_lit(e.e, n)
+        return Coerce(y, e.ty), u
+    if k == "Cast":
+        y, u = replace_lit(e.e, n)
+        return Cast(e.ty, y), u
+    if k == "VariantLit" and e.payload is not None:
+        y, u = replace_lit(e.payload, n)
+        return VariantLit(e.ty, y), u
+    return e, 0
+
+
+def equality_program(draw, avoid):
+    """`==` / `!=` on whole aggregates: equal values, values differing in exactly one leaf, unrelated values"""
+    from hypothesis import strategies as st
+    from .lang import (Struct, Array, Slice, Opt, Let, Print, Bin, Var, Coerce, FnDecl, VOID, BOOL, I64, U64, U32, I32, U16, U8, is_scalar, strip_distinct)
+    feats = set(gen.FEATURES) - {"faults", "pointers", "fn-pointers", "lambdas", "slices"}
+    g = gen.G(draw, {"features": feats, "avoid": set(avoid)})
+    g.make_types()
+    body = []
+    for k in range(g.int(1, 4)):
+        how_t = g.int(0, 2)
+        if how_t == 0:
+            # elements whose size is not a multiple of their alignment: padding between elements
+            S = Struct(g.fresh("Q"), [("m0", g.pick([I64, U32, U16, I32, U64])), ("m1", g.pick([U8, BOOL, U16, Array(3, U8)]))])
+            g.p.types.append(S)
+            T = Array(g.int(2, 5), S)
+        else:
+            T = None
+            for _ in range(6):
+                c = g.value_ty(2)
+                if not is_scalar(strip_distinct(c)) and gen.eq_comparable(c):
+                    T = c
+                    break
+            if T is None:
+                T = Array(3, U8)
+        v1 = g.leaf(T, [])
+        n = count_lits(v1)
+        how = g.int(0, 3)
+        if how <= 1 and n:
+            v2, _ = replace_lit(v1, g.int(0, n - 1))
+            cls = "one-leaf-differs"
+        elif how == 2:
+            v2, cls = v1, "equal"
+        else:
+            v2, cls = g.leaf(T, []), "unrelated"
+        a, b = f"qa{k}", f"qb{k}"
+        body += [Let(a, T, True, v1), Let(b, T, True, v2)]
+        body += [Print(Bin("==", Var(a, T), Var(b, T), BOOL)), Print(Bin("!=", Var(a, T), Var(b, T), BOOL)), Print(Bin("==", Var(a, T), Var(a, T), BOOL))]
+        t0 = strip_distinct(T)
+        if isinstance(t0, Array) and not isinstance(T, gen.Distinct) and g.chance(5):
+            ST = Slice(t0.elem)
+            body += [Let(f"sa{k}", ST, False, Coerce(Var(a, T), ST)), Let(f"sb{k}", ST, False, Coerce(Var(b, T), ST))]
+            body += [Print(Bin("==", Var(f"sa{k}", ST), Var(f"sb{k}", ST), BOOL)), Print(Bin("!=", Var(f"sa{k}", ST), Var(f"sb{k}", ST), BOOL))]
+        if g.chance(4) and not isinstance(t0, Opt):
+            OT = Opt(T)
+            body += [Let(f"oa{k}", OT, True, Coerce(Var(a, T), OT)), Let(f"ob{k}", OT, True, Coerce(Var(b, T), OT))]
+            body += [Print(Bin("==", Var(f"oa{k}", OT), Var(f"ob{k}", OT), BOOL))]
+        g.used.add("aggregate-eq")
+        g.used.add("eq-" + cls)
+        g.used.add("eq-type-" + type(t0).__name__)
+    g.p.fns.append(FnDecl("main", [], VOID, body, None))
+    g.p.used = g.used
+    return g.p
+
+
 def strategy(profile):
     from .core import load_findings
+    if profile == "equality":
+        from hypothesis import strategies as st
+        av = {AVOID_BY_KEY[f["key"]] for f in load_findings("C01") if f.get("status") == "open" and f["key"] in AVOID_BY_KEY}
+        return st.composite(lambda draw: equality_program(draw, av))()
     avoid = {AVOID_BY_KEY[f["key"]] for f in load_findings("C01") if f.get("status") == "open" and f["key"] in AVOID_BY_KEY}
     return gen.programs(cfg_for(profile, avoid))
 
@@ -60,7 +172,7 @@ def check(p, stats, scratch, profile):
     o = runner.run_case(scratch, {"main.capy": src})
     replay = {"files": {"main.capy": src}, "expect": {"stdout": out, "status": status, "fault": fault}}
     feats = sorted(getattr(p, "used", set()))
-    nontrivial = it.stmts_executed >= 8 and len(feats) >= 3
+    nontrivial = it.stmts_executed >= 8 and len(feats) >= 3 or (profile == "equality" and "eq-one-leaf-differs" in feats)
     if nontrivial:
         stats.nontrivial.add(h64(src))
     stats.cls("profile." + profile)
@@ -119,8 +231,8 @@ def replay_payload(payload, scratch):
 
 
 RULE = ("whole programs generated type-directed by construction from the fragment (profiles: scalars, aggregates, sums, control, "
-        "functions, pointers, all), compiled by the real CLI and executed; oracle = reference interpreter (stdout + exit status). "
-        "Non-trivial = the interpreter executed >= 8 statements and the program uses >= 3 feature classes; distinct by source hash.")
+        "functions, pointers, all, equality = `==`/`!=` on whole arrays / structs / enums / optionals / slices whose values are equal, differ in exactly one leaf, or are unrelated), compiled by the real CLI and executed; oracle = reference interpreter (stdout + exit status). "
+        "Non-trivial = the interpreter executed >= 8 statements and the program uses >= 3 feature classes (equality profile: a pair differing in exactly one leaf); distinct by source hash.")
 
 
 def run(ctx):
